@@ -327,6 +327,11 @@ func runWide(cs wideCase) (res wideResult) {
 				tr.WriteString("R? ")
 				res.kinds = append(res.kinds, "Release:fail")
 				res.fails++
+				// whether the object still holds its lease after a Release that failed is the library's
+				// choice (keeping it is only safe if the write surely did not take effect; giving it up is
+				// always safe): like after a failed Next the model no longer counts on a lease, so a
+				// refusal in the exhaustion zone is accepted
+				lease = false
 				slack = satAdd(slack, interval)
 				sinceLs = append(sinceLs, "store-error")
 				if r := markRule("a Release that returned a store error"); r != nil {
@@ -424,10 +429,10 @@ func nearBoundary(rng *rand.Rand) uint64 {
 
 type wideStats struct {
 	runs, issued, issuedHigh, hugeMulti, crossed, zoneRuns, zoneErrors, zoneIssued int
-	crashRuns, crashes, fails, nontrivial                                        int
-	kinds                                                                        map[string]int
-	viols                                                                        []pendingViol
-	nviol                                                                        int
+	crashRuns, crashes, fails, nontrivial                                          int
+	kinds                                                                          map[string]int
+	viols                                                                          []pendingViol
+	nviol                                                                          int
 }
 
 func wideHash(cs wideCase) uint64 {
